@@ -84,6 +84,9 @@ Step(r) ==
                                          /\ PrintT(<<"KNOWN-FINDING", "KF-C14-envelope", r.a.p, r.a.last>>)
       [] r.ev = "Restart"    -> Restart
       [] r.ev = "Quiescent"  -> QuiescentOk(r.a)
+      [] r.ev = "NoAnswer"   -> \* a request the honest server cannot answer (start block of another branch, lighter than
+                                \* the server's chain at its height): nothing reaches the client
+                                UNCHANGED <<now, peer, tip, tipTD, lastN>>
       [] r.ev = "Panic"      -> \* the only deliberate abort: a valid second proof (from genesis) confirms a long fork
                                 /\ r.a.during = "Proof" /\ r.a.msg = "long fork detected"
                                 /\ peer[r.a.args.p].req.on /\ peer[r.a.args.p].req.fork
